@@ -123,7 +123,8 @@ def rtsafe_(f, x0, bracket, settings):
     def loop_body(carry):
         root, dx, dxOld, F, DF, xl, xh, converged, i = carry
         
-        newtonOutOfRange = ((root - xh)*DF - F) * ((root - xl)*DF - F) > 0
+        # (compare signs: the product can underflow to zero for tiny residuals)
+        newtonOutOfRange = np.sign((root - xh)*DF - F) * np.sign((root - xl)*DF - F) > 0
         newtonDecreasingSlowly = np.abs(2.*F) > np.abs(dxOld*DF)
         dxOld = dx
         root, dx, converged = jax.lax.cond(newtonOutOfRange | newtonDecreasingSlowly,
